@@ -15,6 +15,21 @@ def sh(cmd, cwd, timeout=3600, env=None):
     return p.returncode, p.stdout + p.stderr
 
 
+def apply_patch(wt, patch):
+    """git apply; hook sites added to /repo after a patch was written can shift its context: fall back to a 3-way merge, then
+    to patch(1) with fuzz."""
+    rc, out = sh(["git", "apply", patch], wt)
+    if rc == 0:
+        return rc, out
+    rc2, out2 = sh(["git", "apply", "--3way", patch], wt)
+    if rc2 == 0:
+        sh(["git", "reset", "-q"], wt)
+        return 0, out2
+    sh(["git", "checkout", "-q", "--", "."], wt)
+    rc3, out3 = sh("patch -p1 --fuzz=3 --no-backup-if-mismatch < %s" % patch, wt)
+    return rc3, out + out2 + out3
+
+
 def main():
     ap = argparse.ArgumentParser()
     ap.add_argument("patch")
@@ -31,7 +46,7 @@ def main():
         print(out); return 2
     res = {"patch": a.patch, "when": time.strftime("%Y-%m-%d %H:%M")}
     try:
-        rc, out = sh(["git", "apply", os.path.abspath(a.patch)], wt)
+        rc, out = apply_patch(wt, os.path.abspath(a.patch))
         if rc != 0:
             print("patch does not apply:\n" + out); return 2
         rc, out = sh(["go", "build", "-tags", "verif", "./..."], wt)
